@@ -226,6 +226,39 @@ def _boundary_candidates(pin_term):
     return []
 
 
+# code points with special behaviour under case mapping, normalisation, line splitting, encodings
+_INTERESTING_CPS = (0x301, 0x212B, 0xDF, 0x130, 0x1C5, 0xFB01, 0x2028, 0x85, 0x0A, 0x0D, 0x00, 0x1F600, 0xE9, 0x3A3)
+
+
+def _string_candidates(pin_term):
+    """for a pinned string (a conjunction of `char == const`): the same positions set to code points of special classes"""
+    try:
+        eqs = pin_term.children() if z3.is_and(pin_term) else [pin_term]
+        out = []
+        for e in eqs[:3]:
+            if z3.is_eq(e) and z3.is_int(e.arg(0)) and z3.is_int_value(e.arg(1)):
+                out += [e.arg(0) == cp for cp in _INTERESTING_CPS if cp != e.arg(1).as_long()]
+        return out
+    except Exception:  # noqa: BLE001
+        return []
+
+
+def _relative_candidates(pin_term, vars):
+    try:
+        if not z3.is_eq(pin_term) or pin_term.num_args() != 2:
+            return []
+        lhs, rhs = pin_term.arg(0), pin_term.arg(1)
+        if not (z3.is_int(lhs) and z3.is_int_value(rhs)):
+            return []
+        out = []
+        for v in list(vars.values())[:4]:
+            if z3.is_int(v) and not v.eq(lhs):
+                out += [lhs == v + 1, lhs == v - 1]
+        return out
+    except Exception:  # noqa: BLE001
+        return []
+
+
 class HResult:
     def __init__(self, hid):
         self.id = hid
@@ -374,6 +407,28 @@ def explore(h, known=None, collect_validation=2, profile_root=None):
                     hits = []
                 else:
                     m2 = s2.model()
+                    if not excl:
+                        # prefer the inputs of this very run as the witness when they violate the obligation themselves:
+                        # they reproduce by construction, also where the code let a C function read a symbolic value
+                        try:
+                            s3 = new_solver(h.timeout_ms, getattr(h, 'solver_opts', None))
+                            s3.add(*pre)
+                            s3.add(*pc)
+                            s3.add(z3.Not(ob.term))
+                            for n_, v_ in h.vars.items():
+                                k_ = v_.sort().kind()
+                                if k_ == z3.Z3_FLOATING_POINT_SORT:
+                                    c_ = vals[n_]
+                                    s3.add(z3.fpIsNaN(v_) if c_ != c_ else v_ == core.fp_val(c_))
+                                elif k_ == z3.Z3_BOOL_SORT:
+                                    s3.add(v_ == z3.BoolVal(bool(vals[n_])))
+                                else:
+                                    s3.add(v_ == vals[n_])
+                            if str(s3.check()) == "sat":
+                                m2 = s3.model()
+                            res.queries += 1
+                        except Exception:  # noqa: BLE001
+                            pass
                     wvals = model_values(m2, h.vars)
                     hits = known.match(ob, m2, allvars) if known else []
                 clean_path = False
@@ -415,6 +470,9 @@ def explore(h, known=None, collect_validation=2, profile_root=None):
                     work.append((pc[:i], extra + [neg], i))
                 else:
                     res.pin_chains_cut += 1
+                if not extra:
+                    for cand in _string_candidates(t):
+                        work.append((pc[:i], [cand], i))
                 continue
             if kind == "pin":
                 # a flipped pin is a persistent constraint of all descendants; the position stays open.
@@ -424,9 +482,12 @@ def explore(h, known=None, collect_validation=2, profile_root=None):
                     res.pin_chains_cut += 1
                     continue
                 work.append((pc[:i], extra + [neg], i))
-                if not extra:
-                    for cand in _boundary_candidates(t):
-                        work.append((pc[:i], [cand], i))
+                if len(extra) <= 1 and all(getattr(e, "_vf_cand", False) for e in extra):
+                    # boundary values, and values next to the other integer inputs (two operands that must be close to
+                    # each other, e.g. distinct integers that round to the same double); one level of nesting
+                    for cand in _boundary_candidates(t) + _relative_candidates(t, h.vars):
+                        cand._vf_cand = True
+                        work.append((pc[:i], extra + [cand], i))
             else:
                 work.append((pc[:i] + [neg], extra, i + 1))
     res.wall_s = time.time() - t_start
